@@ -1,6 +1,7 @@
 package ntske
 
 import (
+	"bytes"
 	"context"
 	"crypto/tls"
 	"encoding/hex"
@@ -157,8 +158,9 @@ func (f *Fetcher) FetchData(ctx context.Context) (Data, error) {
 	return data, nil
 }
 
-// StoreCookie stores a cookie byte slice and appends it to the cached data.
-func (f *Fetcher) StoreCookie(cookie []byte) {
+// StoreCookie stores a cookie byte slice that arrived in a response
+// authenticated with s2cKey and appends it to the cached data.
+func (f *Fetcher) StoreCookie(cookie []byte, s2cKey []byte) {
 	f.mu.Lock()
 	defer f.mu.Unlock()
 	if len(cookie) > MaxCookieLen {
@@ -169,6 +171,12 @@ func (f *Fetcher) StoreCookie(cookie []byte) {
 		// the keys the cookie belongs to are gone (a failed exchange in
 		// between): a cookie without keys cannot be used, and a pool that is
 		// not empty would keep the next request from exchanging keys
+		return
+	}
+	if !bytes.Equal(f.data.S2cKey, s2cKey) {
+		// the keys the cookie belongs to have been replaced (a successful
+		// exchange in between): the server drops a request that is made with
+		// the cached keys and this cookie
 		return
 	}
 	if len(f.data.Cookie) >= MaxStoredCookies {
